@@ -213,6 +213,7 @@ func (e *Engine) Generate(r *core.Rand, prop string, tier string) core.Trace {
 	t := &Trace{VSeed: r.Uint64() >> 12}
 	g := &gen{r: r, t: t, maxW: 255}
 	g.pickBase()
+	t.Hidden = r.Chance(1, 3)
 	if r.Chance(1, 2) {
 		g.maxW = 16
 	}
@@ -390,10 +391,17 @@ func (g *gen) regOps(n int) {
 			g.stored = append(g.stored, op)
 			g.t.Ops = append(g.t.Ops, op)
 		case 1:
+			g.loads++
 			g.t.Ops = append(g.t.Ops, Op{K: "rload", Key: key, W: w})
 		case 2:
 			g.t.Ops = append(g.t.Ops, Op{K: "apply_reg", Key: key, W: w, V: g.value(w)})
 		case 3: // constant address
+			if g.loads > 0 && g.r.Chance(1, 3) {
+				// ... computed from what a register read returned
+				g.t.Ops = append(g.t.Ops, Op{K: "apply_mem", Key: symMems[g.r.Intn(2)], W: w, V: g.value(w),
+					AddrFrom: 1 + g.r.Intn(g.loads), AddrSh: []int{1, 3, 4, 7, 8, 12, 0}[g.r.Intn(7)]})
+				continue
+			}
 			a := g.addr()
 			g.t.Ops = append(g.t.Ops, Op{K: "apply_mem", Key: symMems[g.r.Intn(2)], W: w, V: g.value(w),
 				AddrX: refeval.ConstU(a, 8)})
